@@ -200,6 +200,14 @@ func TestC05_Perturbations(t *testing.T) {
 }
 
 // TestC05_DeepRelay: well-formed relay chains of every depth 1..105 (and their truncation by one byte) must be accepted (rejected).
+// TestC05_NumericFields: every value of the one-octet numeric fields (prefix lengths, flag octets, type octets):
+// the verdict and the value read must agree with the reference for each of the 256 values, not only for the usual ones.
+func TestC05_NumericFields(t *testing.T) {
+	for _, b := range numericFieldInputsV6() {
+		c05.one(t, obs.Hex(b))
+	}
+}
+
 func TestC05_DeepRelay(t *testing.T) {
 	for _, inner := range deepInners() {
 		for d := 1; d <= 105; d++ {
